@@ -2,6 +2,12 @@ import FranzVerif.Gen.C17
 import FranzVerif.Model.C17
 import FranzVerif.Spec.C17
 import FranzVerif.Proof.C17
+import FranzVerif.Proof.C17Dec
+import FranzVerif.Proof.C17Zig
+import FranzVerif.Proof.C17Fixed
+import FranzVerif.Proof.C17Reader
+import FranzVerif.Proof.C17Refine
+import FranzVerif.Proof.C17RoundTrip
 /-! C17 — property theorems: wire primitives encode and decode exactly.
 
 `Gen.C17.uvarintLens` and `Gen.C17.privateCopyIdentical` are regenerated from /repo on every run, so
@@ -72,5 +78,243 @@ theorem uvarint_roundtrip (u : BitVec 32) (r : Bytes) :
   simp
 
 example : appendUvarint [] 300#32 = [0xac#8, 0x02#8] ∧ uvarintLen 300#32 = 2 := by decide
+
+/-! ## the 10-byte decoder -/
+
+/-- Decoder exactness, 64 bit: on *every* byte string `uvarlong` returns exactly the reference LEB128
+result (`n>0`: value and bytes consumed; `(0,0)`: the input ran out; `(0,-10)`: more than ten bytes or
+the value does not fit 64 bits) and never indexes past the input. Proof: the transcription is
+definitionally the generic unrolled loop `Proof.C17.ulGo` at fuel 9, and `ulGo_spec` is an induction. -/
+theorem uvarlong_exact (inp : Bytes) :
+    uvarlong inp = some (BitVec.ofNat 64 (Spec.C17.decU 64 10 inp).1, (Spec.C17.decU 64 10 inp).2) :=
+  Proof.C17.uvarlong_exact inp
+
+theorem uvarlong_no_panic (inp : Bytes) : (uvarlong inp).isSome = true := by rw [uvarlong_exact]; rfl
+
+example : uvarlong [0xff#8, 0xff#8, 0xff#8, 0xff#8, 0xff#8, 0xff#8, 0xff#8, 0xff#8, 0xff#8, 0x01#8, 0x55#8]
+    = some (18446744073709551615#64, 10) := by decide
+example : uvarlong [0xff#8, 0xff#8, 0xff#8, 0xff#8, 0xff#8, 0xff#8, 0xff#8, 0xff#8, 0xff#8, 0x02#8] = some (0#64, -10) := by decide
+example : uvarlong [0xff#8, 0xff#8, 0xff#8] = some (0#64, 0) := by decide
+
+/-- Round trip, every 64-bit value, any trailing bytes. -/
+theorem uvarlong_roundtrip (u : BitVec 64) (r : Bytes) :
+    uvarlong (appendUvarlong [] u ++ r) = some (u, (uvarlongLen u : Int)) := by
+  rw [(Proof.C17.uvarlong_model_rt lens_table_correct u r).1, uvarlongLen_is_encoded_length]
+
+/-! ## zig-zag -/
+
+/-- The Go expressions `uint32(i)<<1 ^ uint32(i>>31)` / `(x>>1) ^ -(x&1)` (and the 64-bit ones) compute
+the integer zig-zag maps of the Kafka protocol on every value. -/
+theorem zigzag32_is_spec (i : BitVec 32) : (zigzag32 i).toNat = Spec.C17.zz i.toInt := Proof.C17.zigzag32_spec i
+theorem zigzag64_is_spec (i : BitVec 64) : (zigzag64 i).toNat = Spec.C17.zz i.toInt := Proof.C17.zigzag64_spec i
+theorem unzigzag32_is_spec (u : BitVec 32) : (unzigzag32 u).toInt = Spec.C17.unzz u.toNat := Proof.C17.unzigzag32_spec u
+theorem unzigzag64_is_spec (u : BitVec 64) : (unzigzag64 u).toInt = Spec.C17.unzz u.toNat := Proof.C17.unzigzag64_spec u
+
+/-- encode and decode are inverse bijections on all of `BitVec 32` / `BitVec 64`. -/
+theorem zigzag32_bijection (i u : BitVec 32) : unzigzag32 (zigzag32 i) = i ∧ zigzag32 (unzigzag32 u) = u :=
+  ⟨Proof.C17.unzigzag32_zigzag32 i, Proof.C17.zigzag32_unzigzag32 u⟩
+theorem zigzag64_bijection (i u : BitVec 64) : unzigzag64 (zigzag64 i) = i ∧ zigzag64 (unzigzag64 u) = u :=
+  ⟨Proof.C17.unzigzag64_zigzag64 i, Proof.C17.zigzag64_unzigzag64 u⟩
+
+example : zigzag32 (-1#32) = 1#32 ∧ zigzag32 (2147483648#32) = 4294967295#32 ∧ unzigzag32 3#32 = -2#32 := by decide
+
+/-- `AppendVarint`/`AppendVarlong` append the LEB128 bytes of the zig-zag image of the signed value. -/
+theorem appendVarint_exact (dst : Bytes) (i : BitVec 32) :
+    appendVarint dst i = dst ++ Spec.C17.encU (Spec.C17.zz i.toInt) ∧ varintLen i = Spec.C17.lenU (Spec.C17.zz i.toInt) := by
+  rw [← zigzag32_is_spec]; exact appendUvarint_exact dst (zigzag32 i)
+theorem appendVarlong_exact (dst : Bytes) (i : BitVec 64) :
+    appendVarlong dst i = dst ++ Spec.C17.encU (Spec.C17.zz i.toInt) ∧ varlongLen i = Spec.C17.lenU (Spec.C17.zz i.toInt) := by
+  rw [← zigzag64_is_spec]; exact appendUvarlong_exact dst (zigzag64 i)
+
+/-- `Varint`/`Varlong` return exactly the Spec's signed decoder result on every byte string. -/
+theorem varint_exact (inp : Bytes) :
+    varint inp = some (BitVec.ofInt 32 (Spec.C17.decS 32 5 inp).1, (Spec.C17.decS 32 5 inp).2) :=
+  Proof.C17.varint_exact inp
+theorem varlong_exact (inp : Bytes) :
+    varlong inp = some (BitVec.ofInt 64 (Spec.C17.decS 64 10 inp).1, (Spec.C17.decS 64 10 inp).2) :=
+  Proof.C17.varlong_exact inp
+
+/-- Round trips `decode (encode v ++ rest) = (v, length)` for every signed 32/64-bit value. -/
+theorem varint_roundtrip (i : BitVec 32) (r : Bytes) :
+    varint (appendVarint [] i ++ r) = some (i, (varintLen i : Int)) := by
+  rw [varint, appendVarint, uvarint_roundtrip, Option.map_some]
+  simp only [(zigzag32_bijection i 0).1]; rfl
+theorem varlong_roundtrip (i : BitVec 64) (r : Bytes) :
+    varlong (appendVarlong [] i ++ r) = some (i, (varlongLen i : Int)) := by
+  rw [varlong, appendVarlong, uvarlong_roundtrip, Option.map_some]
+  simp only [(zigzag64_bijection i 0).1]; rfl
+
+example : varint (appendVarint [] (-300#32) ++ [0xff#8]) = some (-300#32, 2) := by decide
+
+/-! ## fixed-width big-endian -/
+
+/-- The fixed-width encoders append the big-endian bytes of the value (`Spec.C17.be`); signed values
+are written as their two's complement pattern; a float64 as its 64 bits. -/
+theorem appendInt8_exact (dst : Bytes) (i : BitVec 8) : appendInt8 dst i = dst ++ Spec.C17.be 1 (Spec.C17.pattern 8 i.toInt) := by
+  rw [Proof.C17.pattern_toInt]; exact Proof.C17.appendInt8_be dst i
+theorem appendUint16_exact (dst : Bytes) (u : BitVec 16) : appendUint16 dst u = dst ++ Spec.C17.be 2 u.toNat :=
+  Proof.C17.appendUint16_be dst u
+theorem appendInt16_exact (dst : Bytes) (i : BitVec 16) : appendInt16 dst i = dst ++ Spec.C17.be 2 (Spec.C17.pattern 16 i.toInt) := by
+  rw [Proof.C17.pattern_toInt]; exact Proof.C17.appendUint16_be dst i
+theorem appendUint32_exact (dst : Bytes) (u : BitVec 32) : appendUint32 dst u = dst ++ Spec.C17.be 4 u.toNat :=
+  Proof.C17.appendUint32_be dst u
+theorem appendInt32_exact (dst : Bytes) (i : BitVec 32) : appendInt32 dst i = dst ++ Spec.C17.be 4 (Spec.C17.pattern 32 i.toInt) := by
+  rw [Proof.C17.pattern_toInt]; exact Proof.C17.appendUint32_be dst i
+theorem appendInt64_exact (dst : Bytes) (i : BitVec 64) : appendInt64 dst i = dst ++ Spec.C17.be 8 (Spec.C17.pattern 64 i.toInt) := by
+  rw [Proof.C17.pattern_toInt]; exact Proof.C17.appendUint64_be dst i
+theorem appendFloat64_exact (dst : Bytes) (bits : BitVec 64) : appendFloat64 dst bits = dst ++ Spec.C17.be 8 bits.toNat :=
+  Proof.C17.appendUint64_be dst bits
+
+/-- the reference big-endian reader inverts the reference writer (all widths, all values) -/
+theorem spec_bigendian_roundtrip (k n : Nat) : Spec.C17.unbe (Spec.C17.be k n) = n % 256 ^ k := Proof.C17.unbe_be k n
+
+/-- Fixed-width round trips through the `Reader`: whatever reader state (`r`) whose source starts with
+the encoding, the read returns exactly the value and leaves exactly the bytes that followed. -/
+theorem bool_roundtrip (r : Reader) (v : Bool) (tail : Bytes) (h : r.src = appendBool [] v ++ tail) :
+    r.bool = some (v, { r with src := tail }) := Proof.C17.bool_rt r v tail h
+theorem int8_roundtrip (r : Reader) (v : BitVec 8) (tail : Bytes) (h : r.src = appendInt8 [] v ++ tail) :
+    r.int8 = some (v, { r with src := tail }) := Proof.C17.int8_rt r v tail h
+theorem int16_roundtrip (r : Reader) (v : BitVec 16) (tail : Bytes) (h : r.src = appendInt16 [] v ++ tail) :
+    r.int16 = some (v, { r with src := tail }) := Proof.C17.uint16_rt r v tail h
+theorem uint16_roundtrip (r : Reader) (v : BitVec 16) (tail : Bytes) (h : r.src = appendUint16 [] v ++ tail) :
+    r.uint16 = some (v, { r with src := tail }) := Proof.C17.uint16_rt r v tail h
+theorem int32_roundtrip (r : Reader) (v : BitVec 32) (tail : Bytes) (h : r.src = appendInt32 [] v ++ tail) :
+    r.int32 = some (v, { r with src := tail }) := Proof.C17.uint32_rt r v tail h
+theorem uint32_roundtrip (r : Reader) (v : BitVec 32) (tail : Bytes) (h : r.src = appendUint32 [] v ++ tail) :
+    r.uint32 = some (v, { r with src := tail }) := Proof.C17.uint32_rt r v tail h
+theorem int64_roundtrip (r : Reader) (v : BitVec 64) (tail : Bytes) (h : r.src = appendInt64 [] v ++ tail) :
+    r.int64 = some (v, { r with src := tail }) := Proof.C17.readUint64_rt r v tail h
+theorem float64_roundtrip (r : Reader) (bits : BitVec 64) (tail : Bytes) (h : r.src = appendFloat64 [] bits ++ tail) :
+    r.float64 = some (bits, { r with src := tail }) := Proof.C17.readUint64_rt r bits tail h
+theorem uuid_roundtrip (r : Reader) (hnil : r.srcNil = false) (u tail : Bytes) (hu : u.length = 16)
+    (h : r.src = appendUuid [] u ++ tail) : r.uuid = some (u, { r with src := tail }) := Proof.C17.uuid_rt r hnil u tail hu h
+
+example : (Reader.int32 { src := appendInt32 [] (-2#32) ++ [0x07#8] }) = some (-2#32, { src := [0x07#8] }) := by decide
+
+/-- Short input is rejected: the reader is invalidated (`bad`, `Src = nil`) and the zero value returned. -/
+theorem fixed_short_rejected (r : Reader) :
+    (r.src.length < 1 → r.bool = some (false, Reader.invalid) ∧ r.int8 = some (0, Reader.invalid)) ∧
+    (r.src.length < 2 → r.int16 = some (0, Reader.invalid) ∧ r.uint16 = some (0, Reader.invalid)) ∧
+    (r.src.length < 4 → r.int32 = some (0, Reader.invalid) ∧ r.uint32 = some (0, Reader.invalid)) ∧
+    (r.src.length < 8 → r.int64 = some (0, Reader.invalid) ∧ r.float64 = some (0, Reader.invalid)) ∧
+    (r.src.length < 16 → r.uuid = some (List.replicate 16 0#8, Reader.invalid)) := by
+  refine ⟨fun h => ?_, fun h => ?_, fun h => ?_, fun h => ?_, fun h => ?_⟩
+  · simp [Reader.bool, Reader.int8, h]
+  · simp [Reader.int16, Reader.uint16, h]
+  · simp [Reader.int32, Reader.uint32, h]
+  · simp [Reader.int64, Reader.float64, Reader.readUint64, h]
+  · rw [Reader.uuid, Proof.C17.span_eq, if_pos (by omega)]; rfl
+
+/-! ## Reader laws -/
+
+/-- Every `Reader` method refines one step of the Spec's reader contract (`Spec.C17.step`, written from
+the protocol description), on every reader satisfying the invariant `WF` (which the constructor state
+satisfies and every method preserves): the method does not panic (never reads past the input); the
+observable state afterwards (`Src`, `Ok()`) is the Spec's — a well-formed prefix is consumed exactly,
+anything else (short input, overlong/overflowing varint, negative or oversized length) invalidates the
+reader; the value is the Spec's value; and the new source is a suffix of the old one. All 26 kinds. -/
+theorem reader_refines_spec (k : Spec.C17.Kind) (r : Reader) (hwf : Proof.C17.WF r) :
+    ∃ res r', Proof.C17.run k r = some (res, r') ∧ Proof.C17.WF r' ∧
+      Proof.C17.absR r' = (Spec.C17.step k (Proof.C17.absR r)).2 ∧
+      (∀ v, (Spec.C17.step k (Proof.C17.absR r)).1 = some v → Proof.C17.matchesVal v res = true) ∧
+      (r' = Reader.invalid ∨ ∃ n, n ≤ r.src.length ∧ r' = Proof.C17.adv r n) :=
+  Proof.C17.run_refines k r hwf
+
+/-- the initial states satisfy the invariant: any non-nil source, or the nil source -/
+theorem reader_initial_wf (src : Bytes) : Proof.C17.WF { src := src } ∧ Proof.C17.WF { src := [], srcNil := true } := by
+  refine ⟨⟨fun h => ?_, fun h => ?_⟩, ⟨fun h => ?_, fun _ => rfl⟩⟩ <;> simp at h
+
+example : Proof.C17.run .string { src := [0x00#8, 0x02#8, 0x61#8, 0x62#8, 0xff#8] }
+    = some (.o (some [0x61#8, 0x62#8]), { src := [0xff#8] }) := by decide
+example : Proof.C17.run .compactString { src := [0x05#8, 0x61#8] } = some (.o (some []), Reader.invalid) := by decide
+
+/-- Any sequence of reads: no panic, and the final `Src`/`Ok()` are the Spec's. In particular `Ok()`
+(hence `Complete() == nil`) holds at the end iff every read of the sequence found a well-formed
+encoding (`Spec.C17.stepAll` fails from the first malformed read on). -/
+theorem reader_sequence_refines (ks : List Spec.C17.Kind) (r : Reader) (hwf : Proof.C17.WF r) :
+    ∃ out r', Proof.C17.runAll ks r = some (out, r') ∧ Proof.C17.WF r' ∧
+      Proof.C17.absR r' = Proof.C17.stepAll ks (Proof.C17.absR r) ∧ out.length = ks.length :=
+  Proof.C17.runAll_refines ks r hwf
+
+theorem reader_ok_iff_spec_ok (ks : List Spec.C17.Kind) (r r' : Reader) (out : List Proof.C17.MR) (hwf : Proof.C17.WF r)
+    (h : Proof.C17.runAll ks r = some (out, r')) : r'.ok = (Proof.C17.stepAll ks (Proof.C17.absR r)).ok := by
+  obtain ⟨out2, r2, h2, _, habs, _⟩ := Proof.C17.runAll_refines ks r hwf
+  rw [h] at h2
+  simp only [Option.some.injEq, Prod.mk.injEq] at h2
+  obtain ⟨_, rfl⟩ := h2
+  rw [← habs]; rfl
+
+/-- After a failed read the reader stays failed: every method on an invalidated reader returns its zero
+value (`Proof.C17.zeroRes`: false / 0 / nil / "" — with the quirks that `CompactBytes` returns the empty
+non-nil slice and `CompactArrayLen` returns -1), consumes nothing and leaves the reader invalidated. -/
+theorem reader_failure_is_sticky (k : Spec.C17.Kind) (r : Reader) (hwf : Proof.C17.WF r) (hbad : r.ok = false) :
+    Proof.C17.run k r = some (Proof.C17.zeroRes k, r) ∧ r.src = [] := by
+  have hb : r.bad = true := by simpa [Reader.ok] using hbad
+  have := hwf.1 hb
+  subst this
+  exact ⟨Proof.C17.run_invalid_zero k, rfl⟩
+
+theorem spec_failure_is_sticky (ks : List Spec.C17.Kind) (s : Spec.C17.RState) (h : s.ok = false) :
+    (Proof.C17.stepAll ks s).ok = false := Proof.C17.stepAll_failed ks s h
+
+example : ∃ out r', Proof.C17.runAll [.int16, .int32, .bool] { src := [0x00#8, 0x01#8, 0x02#8] } = some (out, r') ∧ r'.ok = false :=
+  ⟨[.i 1, .i 0, .b false], Reader.invalid, by decide, rfl⟩
+
+/-! ## length-prefixed reads return exactly what the corresponding Append wrote -/
+
+theorem string_roundtrip (r : Reader) (hnil : r.srcNil = false) (s tail : Bytes) (hs : s.length < 32768)
+    (h : r.src = appendString [] s ++ tail) : r.string = some (s, { r with src := tail }) :=
+  Proof.C17.string_rt r hnil s tail hs h
+theorem nullableString_roundtrip (r : Reader) (hnil : r.srcNil = false) (s : Option Bytes) (tail : Bytes)
+    (hs : ∀ x, s = some x → x.length < 32768) (h : r.src = appendNullableString [] s ++ tail) :
+    r.nullableString = some (s, { r with src := tail }) := Proof.C17.nullableString_rt r hnil s tail hs h
+theorem compactString_roundtrip (r : Reader) (hnil : r.srcNil = false) (s tail : Bytes) (hs : s.length < 4294967295)
+    (h : r.src = appendCompactString [] s ++ tail) : r.compactString = some (s, { r with src := tail }) :=
+  Proof.C17.compactString_rt lens_table_correct r hnil s tail hs h
+theorem compactNullableString_roundtrip (r : Reader) (hnil : r.srcNil = false) (s : Option Bytes) (tail : Bytes)
+    (hs : ∀ x, s = some x → x.length < 4294967295) (h : r.src = appendCompactNullableString [] s ++ tail) :
+    r.compactNullableString = some (s, { r with src := tail }) :=
+  Proof.C17.compactNullableString_rt lens_table_correct r hnil s tail hs h
+theorem bytes_roundtrip (r : Reader) (hnil : r.srcNil = false) (b tail : Bytes) (hb : b.length < 2147483648)
+    (h : r.src = appendBytes [] b ++ tail) : r.bytes = some (some b, { r with src := tail }) :=
+  Proof.C17.bytes_rt r hnil b tail hb h
+theorem nullableBytes_roundtrip (r : Reader) (hnil : r.srcNil = false) (b : Option Bytes) (tail : Bytes)
+    (hb : ∀ x, b = some x → x.length < 2147483648) (h : r.src = appendNullableBytes [] b ++ tail) :
+    r.nullableBytes = some (b, { r with src := tail }) := Proof.C17.nullableBytes_rt r hnil b tail hb h
+theorem compactBytes_roundtrip (r : Reader) (hnil : r.srcNil = false) (b tail : Bytes) (hb : b.length < 4294967295)
+    (h : r.src = appendCompactBytes [] b ++ tail) : r.compactBytes = some (some b, { r with src := tail }) :=
+  Proof.C17.compactBytes_rt lens_table_correct r hnil b tail hb h
+theorem compactNullableBytes_roundtrip (r : Reader) (hnil : r.srcNil = false) (b : Option Bytes) (tail : Bytes)
+    (hb : ∀ x, b = some x → x.length < 4294967295) (h : r.src = appendCompactNullableBytes [] b ++ tail) :
+    r.compactNullableBytes = some (b, { r with src := tail }) :=
+  Proof.C17.compactNullableBytes_rt lens_table_correct r hnil b tail hb h
+theorem varintBytes_roundtrip (r : Reader) (hnil : r.srcNil = false) (b : Option Bytes) (tail : Bytes)
+    (hb : ∀ x, b = some x → x.length < 2147483648) (h : r.src = appendVarintBytes [] b ++ tail) :
+    r.varintBytes = some (b, { r with src := tail }) := Proof.C17.varintBytes_rt lens_table_correct r hnil b tail hb h
+theorem varintString_roundtrip (r : Reader) (hnil : r.srcNil = false) (s tail : Bytes) (hs : s.length < 2147483648)
+    (h : r.src = appendVarintString [] s ++ tail) : r.varintString = some (s, { r with src := tail }) :=
+  Proof.C17.varintString_rt lens_table_correct r hnil s tail hs h
+/-- array lengths come back when at least that many bytes follow (every element takes at least a byte) -/
+theorem arrayLen_roundtrip (r : Reader) (l : Nat) (tail : Bytes) (hl : l < 2147483648) (ht : l ≤ tail.length)
+    (h : r.src = appendArrayLen [] l ++ tail) : r.arrayLen = some (BitVec.ofNat 32 l, { r with src := tail }) :=
+  Proof.C17.arrayLen_rt r l tail hl ht h
+theorem compactArrayLen_roundtrip (r : Reader) (l : Nat) (tail : Bytes) (hl : l < 2147483648) (ht : l ≤ tail.length)
+    (h : r.src = appendCompactArrayLen [] l ++ tail) : r.compactArrayLen = some (BitVec.ofNat 32 l, { r with src := tail }) :=
+  Proof.C17.compactArrayLen_rt lens_table_correct r l tail hl ht h
+/-- varints through the reader -/
+theorem reader_varint_roundtrips (r : Reader) (tail : Bytes) :
+    (∀ u, r.src = appendUvarint [] u ++ tail → r.uvarint = some (u, { r with src := tail })) ∧
+    (∀ i, r.src = appendVarint [] i ++ tail → r.varint = some (i, { r with src := tail })) ∧
+    (∀ i, r.src = appendVarlong [] i ++ tail → r.varlong = some (i, { r with src := tail })) :=
+  ⟨fun u h => Proof.C17.uvarint_rt lens_table_correct r u tail h, fun i h => Proof.C17.varint_rt lens_table_correct r i tail h,
+   fun i h => Proof.C17.varlong_rt lens_table_correct r i tail h⟩
+
+/-- negative and oversized lengths are rejected by `Span` (no panic, reader invalidated) -/
+theorem span_rejects (r : Reader) (l : Int) (h : l < 0 ∨ (r.src.length : Int) < l) : r.span l = some (none, Reader.invalid) := by
+  rw [Proof.C17.span_eq, if_pos (by omega)]
+
+example : Reader.compactString { src := appendCompactString [] [0x61#8, 0x62#8, 0x63#8] ++ [0x00#8] }
+    = some ([0x61#8, 0x62#8, 0x63#8], { src := [0x00#8] }) := by decide
+example : Reader.bytes { src := [0x80#8, 0x00#8, 0x00#8, 0x00#8, 0x01#8] } = some (none, Reader.invalid) := by decide
 
 end Props.C17
